@@ -9,7 +9,9 @@ def pElem (s : String) : Option (Elem Plan.Stmt) :=
   | "C" :: rest => (parsePStmt (":".intercalate rest)).map .code
   | "F" :: name :: rest =>
     (match ((":".intercalate rest).splitOn "|").mapM parsePStmt with
-     | some ss => some (if name == "-" then .unnamed ss else if name == "!" then .disabled ss else .named name ss)
+     -- `-` a plain mech fence, `#` a hidden one (mech:hidden), `%` one whose output is switched off
+     -- (mech{output: false}): all three are code of the unnamed program; `!` disabled; else the block's name
+     | some ss => some (if name == "-" || name == "#" || name == "%" then .unnamed ss else if name == "!" then .disabled ss else .named name ss)
      | none => none)
   | _ => none
 
